@@ -12,6 +12,7 @@ import tempfile
 
 from hypothesis import strategies as st
 
+from .. import known
 from ..common import SoftTimeout, XonshParser, classify_exception, repo_modules, watchdog
 from ..gen import corpus, mutate, soup, xonsh
 from ..gen.pysrc import PyGen
@@ -81,9 +82,21 @@ def check(rec, case):
 
     results = {}
     results["tokenize"] = run_entry(tok)
-    results["exec"] = run_entry(lambda: XP.parse_string(src, mode="exec"))
-    results["eval"] = run_entry(lambda: XP.parse_string(src, mode="eval"))
-    if case.get("file") or (len(src) % 5 == 0 and "\x00" not in src):
+    if case.get("default_limit"):
+        # what a caller sees without the harness' raised recursion limit (finding D22)
+        old_limit = sys.getrecursionlimit()
+        sys.setrecursionlimit(1000)
+        try:
+            results["exec"] = run_entry(lambda: XP.parse_string(src, mode="exec"))
+        finally:
+            sys.setrecursionlimit(old_limit)
+    else:
+        results["exec"] = run_entry(lambda: XP.parse_string(src, mode="exec"))
+    if results["exec"][0] == "bad" and results["exec"][1] == "hang":
+        results.pop("tokenize")  # do not spend two more timeouts on the same input
+    else:
+        results["eval"] = run_entry(lambda: XP.parse_string(src, mode="eval"))
+    if "eval" in results and (case.get("file") or (len(src) % 5 == 0 and "\x00" not in src)):
         try:
             data = src.encode("utf-8")
         except UnicodeEncodeError:
@@ -99,7 +112,7 @@ def check(rec, case):
     for ep, r in results.items():
         if r[0] == "bad":
             sig = r[1]
-            if sig.startswith("RecursionError") and nsig[0] >= 300:
+            if sig.startswith("RecursionError") and nsig[0] >= 300 and not case.get("default_limit"):
                 rec.inconclusive["RecursionError on >=300 tokens (resource limit)"] += 1
                 continue
             rec.fail(case, "hang" if sig == "hang" else sig, dict(r[2], entry_point=ep))
@@ -177,7 +190,18 @@ def search(rec, ctx):
             for pre in mutate.token_prefixes(s):
                 check(rec, {"src": pre, "stream": "corpus-prefix"})
 
+    # nesting at the interpreter's default recursion limit (D22): depth < 20 must work
+    for o, c in ctx.shard([("(", ")"), ("[", "]"), ("{", "}"), ("f(", ")"), ("a[", "]"), ("$(echo @(", "))"), ("-", ""), ("not ", ""), ("lambda: ", "")]):
+        for n in (5, 10, 15, 19, 25, 30, 40, 50):
+            check(rec, {"src": "x = " + o * n + "a" + c * n + "\n", "stream": "nesting-default-limit", "default_limit": True, "depth": n})
+
     if ctx.thorough:
         atheris_campaign(rec, ctx, 400000, 96)
     else:
         atheris_campaign(rec, ctx, 12000, 48)
+
+
+@known.matcher
+def recursion_at_default_limit(case, signature, detail):
+    """D22: RecursionError under the interpreter's default recursion limit for nesting >= 20"""
+    return bool(case.get("default_limit")) and case.get("depth", 0) >= 20 and signature.startswith("RecursionError")
